@@ -366,3 +366,92 @@ def run(run, P):
     run_gate(run, P)
     run_reject(run, P)
     run_nibble(run, P)
+
+
+# ---------------------------------------------------------------------------------------------------------------
+PARSERS_OUT = ('coap_pdu_parse_header', 'coap_pdu_parse_opt')
+
+
+def run_outputs(run, P):
+    """R-PARSE-GATE (outputs): a parser may be handed a PDU object that was used before (coap_pdu_parse() into a re-used
+    PDU is documented API use).  Whatever field of the PDU a parser function assigns on SOME accepting path is an output
+    of that function, and an output must be assigned on EVERY accepting path -- otherwise an accepted message shows the
+    value an earlier message left there (payload pointer of the previous datagram, ...)."""
+    run.rule('R-PARSE-GATE')
+    for fn in PARSERS_OUT:
+        if not P.has(fn):
+            if run.fixture_mode:
+                continue
+            run.require(False, 'anchor function %s() of R-PARSE-GATE(outputs) not found' % fn)
+        f = P.func(fn)
+        pv = None
+        for p in f['params']:
+            if p.get('prec') == 'coap_pdu_t' and not p.get('pc'):
+                pv = 'v%d' % p['id']
+        if pv is None:
+            run.require(run.fixture_mode, 'R-PARSE-GATE(outputs): %s() has no non-const coap_pdu_t parameter' % fn)
+            continue
+
+        def out_field(t):
+            l = None
+            if t.get('k') == 'asg':
+                l = strip(t['l'])
+            elif t.get('k') == 'un' and t.get('op') in ('++', '--'):
+                l = strip(t['e'])
+            if isinstance(l, dict) and l.get('k') == 'mem' and l.get('arrow') and ap(l['b']) == pv:
+                return l['f']
+            return None
+        W = set()
+        for b, ev in P.events(f):
+            o = out_field(ev['e'])
+            if o and ev['e'].get('k') == 'asg' and ev['e'].get('op') == '=':
+                W.add(o)
+        # a field the function also reads is (partly) an input: the caller set it up; only pure outputs are judged
+        reads = set()
+        for b, ev in P.events(f):
+            t = ev['e']
+            if not ev.get('top'):
+                continue          # sub-expression events repeat the l-value of the assignment that contains them
+            skip = strip(t['l']) if t.get('k') == 'asg' and t.get('op') == '=' else None
+            for x in walk(t):
+                if isinstance(x, dict) and x.get('k') == 'mem' and x.get('arrow') and ap(x.get('b')) == pv and x is not skip:
+                    reads.add(x['f'])
+        for b in f['blocks']:
+            c = (b.get('term') or {}).get('cond')
+            if c is not None:
+                for x in walk(c):
+                    if isinstance(x, dict) and x.get('k') == 'mem' and x.get('arrow') and ap(x.get('b')) == pv:
+                        reads.add(x['f'])
+        W = sorted(W - reads)
+        if not W:
+            continue
+        run.instance('R-PARSE-GATE', '%s: pure outputs %s' % (fn, ','.join(W)))
+
+        def is_rule_event(ev):
+            return ev['e'].get('k') == 'ret' or out_field(ev['e']) is not None
+        keys, R = relevance(f, is_rule_event)
+
+        def on_event(ev, env, ctx):
+            t = ev['e']
+            o = out_field(t)
+            if o and t.get('k') == 'asg' and t.get('op') == '=':
+                e = apply_generic(ev, env, R).copy()
+                e.ts['w'] = env.ts['w'] | {o}
+                return [e]
+            if t.get('k') == 'ret' and 'e' in t:
+                K = const_int(t['e'])
+                if K == 0:
+                    return None
+                if K is None:
+                    a = ap(t['e'])
+                    lo, hi, ex = env.intf(a) if a else (None, None, None)
+                    if a and lo == hi == 0:
+                        return None
+                miss = [x for x in W if x not in env.ts['w']]
+                run.oblige('R-PARSE-GATE', not miss, '%s:outputs' % fn)
+                if miss:
+                    run.violation('R-PARSE-GATE', fn, ev['loc'], 'output-not-set:%s' % '+'.join(miss),
+                                  '%s() accepts on a path that does not assign pdu->%s, which it assigns on other accepting paths: parsing into a PDU that was used before '
+                                  'leaves the value of the earlier message (stale payload pointer, ...)' % (fn, ', pdu->'.join(miss)), ctx.path())
+            return None
+        solve(f, Env({'w': frozenset()}), on_event, None, keys, R, key_fn=lambda e: e.ts['w'], max_envs=512)
